@@ -135,3 +135,50 @@ theorem optExpiry_window {eh best : UInt32} {ne : Option UInt32} (h : optExpiry 
   · exact hw _ _ hv
 
 end Pool.C07
+
+namespace Pool.C07
+open Pool.Gen.C07
+
+/-! ### `OutputWithFee.CloseOutputs` -/
+
+theorem owf_close_ok {s : Script} {r value : Int} {wt : Nat} {outs : List TxOut}
+    (h : outputWithFeeCloseOutputs s r value wt = .ok outs) :
+    ∃ w, witnessSize wt = some w ∧ s.length < 253 ∧
+      outs = [⟨value - feeForWeight r ((8 + 1 + 41 + 1 + (9 + s.length)) * 4 + 2 + w), s⟩] := by
+  unfold outputWithFeeCloseOutputs at h
+  split at h
+  · cases h
+  · rename_i w hw
+    simp only [] at h
+    split at h
+    · cases h
+    · rename_i c hc
+      have hne : classify s ≠ .unsupported := fun hx => hc hx
+      obtain ⟨e, he, he1, he2⟩ := closeSwitch_sizes (classify s) hne
+      have hlen := classify_length s hne
+      rw [he] at h
+      simp only [] at h
+      split at h
+      · cases h
+      · simp only [Except.ok.injEq] at h
+        refine ⟨w, hw, ?_, ?_⟩
+        · rw [hlen]; cases classify s <;> simp [classLen]
+        · rw [← h]
+          have c1 : BaseTxSize = 8 := by decide
+          have c2 : InputSize = 41 := by decide
+          have c3 : witnessScaleFactor = 4 := by decide
+          have c4 : WitnessHeaderSize = 2 := by decide
+          have v1 : varIntSize 1 = 1 := by decide
+          simp only [Twe.weight, Twe.addOutput, Twe.addWitnessInput, he1, hlen, c1, c2, c3, c4, v1, if_true,
+            Nat.zero_add, Nat.add_assoc]
+
+theorem fullWeight_single_out {so : ScriptOf} {a : Account} (o : TxOut) (hl : o.script.length < 253) (w lock : Nat) :
+    fullWeight { createSpendTx so a [o] with lockTime := lock } w
+      = (8 + 1 + 41 + 1 + (9 + o.script.length)) * 4 + 2 + w := by
+  have c3 : witnessScaleFactor = 4 := by decide
+  have v1 : varIntSize 1 = 1 := by decide
+  simp only [fullWeight, createSpendTx, Account.txIn]
+  rw [strippedSize_single _ rfl]
+  simp [sortBy, insertBy, serializeSize_of_len o hl, c3, v1]
+
+end Pool.C07
